@@ -132,7 +132,7 @@ public:
     std::enable_if_t<(Extents::rank() == OtherExtents::rank()), int> = 0>
   friend constexpr bool operator== (const mapping& a, const mapping<OtherExtents>& b) noexcept
   {
-    return a.extents_ == b.extents_;
+    return a.extents() == b.extents();
   }
 
 private:
